@@ -21,7 +21,7 @@ def jobs(tier):
             J.append(job(alg, sum(g), checks=ck, order='desc', groups=g))
     if tier == 'thorough':
         for alg in ('cdec', 'c23', 'c34'):
-            for g in ([11], [12], [19], [20], [25], [26], [33], [34], [3, 8], [8, 3], [1, 2, 9], [9, 2, 1], [5, 5, 5], [12, 12]):
+            for g in ([11], [12], [19], [20], [25], [26], [3, 8], [8, 3], [1, 2, 9], [9, 2, 1], [5, 5, 5], [12, 12]):
                 J.append(job(alg, sum(g), checks=ck, order='desc', groups=g, mandatory=False))
         for alg in ('cdec', 'c23'):
             J.append(job(alg, 6, checks=ck)); J.append(job(alg, 9, checks=ck, order='desc', mandatory=False))
@@ -30,4 +30,4 @@ def jobs(tier):
 
 
 ASSUMPTIONS = ['S1 numpy shim', 'S2 exact arithmetic (thresholds binsize/2, binsize/3 as exact rationals)']
-OUTSIDE = ['more than 6-8 (quick) / 8-9 (thorough) items with pairwise independent values; more than 18 (quick) / 34 (thorough) items with at most three distinct values']
+OUTSIDE = ['more than 6-8 (quick) / 8-9 (thorough) items with pairwise independent values; more than 18 (quick) / 26 (thorough) items with at most three distinct values']
